@@ -103,6 +103,15 @@ def run(ctx):
                 edits.add(s[:i] + s[i + 1:])
     for s in ["1e", "1.5e+", "0E-", "-0e", "1.e1", ".5", "1.", "01", "-", "--1", "+1", "1e1.5", "1e+-1", "é", "aé", "_é_"]:
         edits.add(s)
+    # every character of the first three Unicode blocks (all 128 ASCII characters: the neighbours of each class
+    # boundary such as '@' '[' '`' '{' '/' ':' included) and the boundary scalar values, at every position of a
+    # short name and of a short number
+    chars = [chr(c) for c in range(0, 0x300)] + [chr(c) for c in (0x37E, 0x2028, 0xD7FF, 0xE000, 0xFEFF, 0xFF21, 0xFF3F,
+                                                                     0xFFFD, 0xFFFF, 0x10000, 0x1D7D8, 0x10FFFF)]
+    for ch in chars:
+        for pat in ("%s", "a%s", "%sa", "a%sZ", "_%s9", "Query%s", "%s_", "1%s", "%s1", "1%s1", "1.%s", "1.5%s", "1e%s", "1e+%s",
+                    "-%s", "0%s0"):
+            edits.add(pat % ch)
     cases = sorted(set(hexs(s) for s in strings) | set(hexs(s) for s in edits))
     # fixed corpus first (witnesses of the former defect D8, non-ASCII names), so that a regression is
     # reported with the canonical input
@@ -183,7 +192,8 @@ def run(ctx):
 
     ctx.cov["rule"] = (
         f"c10_name / c10_num_syntax: every string of length <= {maxlen} over {ALPHA} plus every one-character "
-        "insertion/replacement/deletion in 15 valid names and literals (names through Name::new, new_static, "
+        "insertion/replacement/deletion in 15 valid names and literals plus every character U+0000..U+02FF and 12 boundary scalar values "
+        "at 16 positions of short names and numbers (names through Name::new, new_static, "
         "TryFrom<&str|String|&String|Arc<str>>, serde via visit_str and visit_string; numbers through serde of "
         "IntValue/FloatValue both visitor paths); c10_i32: +-2^k, +-2^k+-1, +-10^k+-1 and random i32; c10_f64: every "
         "power of two incl. subnormals, powers of ten and 9.99..e k, +-0.0, MAX, MIN_POSITIVE, subnormal patterns and "
